@@ -397,6 +397,66 @@ func genVerify(r *rand.Rand, emit func(core.Case), n int) {
 	}
 }
 
+// genRace: a chunk of a sender is delivered from another goroutine exactly while applyChunks
+// processes the verdict that rejects that sender.
+func genRace(r *rand.Rand, emit func(core.Case), n int) {
+	for c := 0; c < n; c++ {
+		chunks := 2 + r.Intn(3)
+		sn := snapT{uint64(1 + r.Intn(3)), 1, uint32(chunks), unhx("aa"), nil}
+		bad := pick(r, []string{"p2", "p3"})
+		ops := []string{"s.new", "s.snap peer=p1 " + snapArgs(sn), "s.snap peer=" + bad + " " + snapArgs(sn),
+			fmt.Sprintf("s.env h=%d apphash=a1 state=3/1 commit=4", sn.h)}
+		at := r.Intn(chunks - 1) // the verdict on chunk `at` rejects the sender
+		ops = append(ops, "s.offers accept/"+chunkMsg(bad, sn, 0, "0b"))
+		var applies []string
+		for i := 0; i <= at; i++ {
+			if i < at {
+				applies = append(applies, "accept/-/-/-")
+				continue
+			}
+			// racing chunks: the next index (it would be handed out next) and sometimes a later one
+			conc := []string{chunkMsg(bad, sn, at+1, "ee")}
+			if r.Intn(2) == 0 {
+				conc = append(conc, chunkMsg(bad, sn, r.Intn(chunks), "ef"))
+			}
+			if r.Intn(4) == 0 {
+				conc = append(conc, chunkMsg("p1", sn, at+1, "0a")) // not rejected: not raced
+			}
+			refetch := "-"
+			if r.Intn(3) == 0 {
+				refetch = fmt.Sprint(r.Intn(chunks))
+			}
+			applies = append(applies, fmt.Sprintf("%s/%s/%s/-/%s", pick(r, []string{"accept", "accept", "retry"}), refetch, bad, strings.Join(conc, ",")))
+		}
+		ops = append(ops, "s.applies "+strings.Join(applies, ";"), "s.infos -", "s.late -", "s.fallback p=p1", "s.run", "s.pool")
+		emit(core.Case{Kind: "race", Ops: ops})
+	}
+}
+
+// genLive: real fetcher goroutines, one serving peer. After every chunk has been allocated the
+// application asks for refetches (with ACCEPT or RETRY, so Sync() is not re-entered): the
+// fetchers must request the discarded chunks again.
+func genLive(r *rand.Rand, emit func(core.Case), n int) {
+	for c := 0; c < n; c++ {
+		chunks := 2 + r.Intn(3)
+		sn := snapT{uint64(1 + r.Intn(3)), 1, uint32(chunks), unhx("aa"), nil}
+		ops := []string{fmt.Sprintf("s.live n=%d", 1+r.Intn(3)), "s.snap peer=p1 " + snapArgs(sn),
+			fmt.Sprintf("s.env h=%d apphash=a1 state=3/1 commit=4", sn.h)}
+		var applies []string
+		for i := 0; i < chunks-1; i++ {
+			applies = append(applies, "accept/-/-/-")
+		}
+		// the verdict on the last chunk: by then every chunk has been allocated (the application
+		// takes its time before answering a refetch, see the ABCI wrapper)
+		applies = append(applies, fmt.Sprintf("%s/%d/-/-", pick(r, []string{"accept", "retry"}), r.Intn(chunks)))
+		if r.Intn(2) == 0 {
+			applies = append(applies, fmt.Sprintf("%s/%d/-/-", pick(r, []string{"accept", "retry"}), r.Intn(chunks)))
+		}
+		ops = append(ops, "s.applies "+strings.Join(applies, ";"), "s.run")
+		emit(core.Case{Kind: "live-fetchers", Ops: ops})
+	}
+}
+
 func main() {
 	core.Main(core.Prop{
 		ID:     "C14",
@@ -410,6 +470,12 @@ func main() {
 			genPool(r, emit, n)
 			genSync(r, emit, 2*n, tier)
 			genVerify(r, emit, n/2)
+			genRace(r, emit, n/10)
+			live := 6
+			if tier == "thorough" {
+				live = 40
+			}
+			genLive(r, emit, live)
 		},
 		Exec:   execCase,
 		Oracle: oracle,
@@ -431,7 +497,7 @@ func main() {
 		},
 		Parallel: 8,
 		Extra: func() map[string]interface{} {
-			return map[string]interface{}{"scenario_histogram": scenHist, "syncany_result_histogram": runHist, "verdict_histogram": verdictHist}
+			return map[string]interface{}{"scenario_histogram": scenHist, "syncany_result_histogram": runHist, "verdict_histogram": verdictHist, "racing_deliveries": raceHist}
 		},
 	})
 }
